@@ -393,7 +393,38 @@ def rule_filters(program, ctx):
         ctx.bad(finding_func(P, rid, sub, "filters are not validated one by one under `except ValidationError`", text="def subscribe(...) :: validation"))
 
 
+def rule_writer(program, ctx, prop=P, rid="C19.writer"):
+    from ..cfg import catches
+
+    ctx.rule(
+        rid,
+        "the LMDB writer thread is shared by every connection: inside WriterThread.run's `while` loop the per-task work is enclosed by a catch-all `except Exception` "
+        "(one client's event that makes an index conversion raise - OverflowError for a kind >= 2**32, AttributeError for a non-string tag name - must not end the thread; "
+        "after that every connection's EVENT is still answered OK=true but never stored)",
+        floor=1,
+    )
+    run_fn = program.func("nostr_relay.storage.kv:WriterThread.run")
+    loop = next((w for w in walk_no_nested(run_fn) if isinstance(w, ast.While)), None)
+    if loop is None:
+        ctx.bad(finding_func(prop, rid, run_fn, "WriterThread.run has no task loop", text="def run(...) :: loop"))
+        return
+    tries = [t for t in ast.walk(loop) if isinstance(t, ast.Try) and any(isinstance(w, ast.With) and "begin" in ast.unparse(w.items[0].context_expr) for s in t.body for w in ast.walk(s))]
+    if not tries:
+        ctx.bad(finding_at(prop, rid, loop, "the write transaction is not inside a try within the task loop: any failing task ends the writer thread for all connections"))
+        return
+    for t in tries:
+        if any(catches(h, "exc") == "all" for h in t.handlers):
+            ctx.ok(rid, t, "catch-all handler around each task")
+        else:
+            ctx.bad(finding_at(prop, rid, t.handlers[0] if t.handlers else t, f"the handler around a writer task catches only `{ast.unparse(t.handlers[0].type)[:60] if t.handlers and t.handlers[0].type else '?'}`: "
+                               "an exception of another type raised while applying one client's event (OverflowError, AttributeError, KeyError …) ends the writer thread - later events of "
+                               "every connection are acknowledged but never stored"))
+
+
 def run(program, ctx):
+    from ..lib import rule_awaited
+
+    rule_awaited(program, ctx, P, ANCHORS)
     rule_contain(program, ctx)
     rule_none(program, ctx)
     rule_shape(program, ctx)
@@ -401,6 +432,11 @@ def run(program, ctx):
     rule_slots(program, ctx)
     rule_queue(program, ctx)
     rule_filters(program, ctx)
+    rule_writer(program, ctx)
+    from . import c06, c13
+
+    c06.rule_reap(program, ctx, prop=P, rid="C19.reap")
+    c13.rule_typed(program, ctx, prop=P, rid="C19.typed")
     ctx.not_decided += [
         "liveness ('keeps answering') and isolation between connections as runtime facts",
         "resource exhaustion by oversized or deeply nested inputs",
